@@ -96,6 +96,9 @@ def concretise(tree, mark=".", integers=False):
 _trees = {}
 
 
+N_CHAIN3 = {}       # tier -> how many of the trailing 'deep' trees are the exhaustive depth-3 chains
+
+
 def trees(wd, tier):
     """Abstract trees: every context to depth 2 (TLC, exhaustive) + simulated depth-4 nestings."""
     key = tier
@@ -116,5 +119,10 @@ def trees(wd, tier):
         if k not in seen:
             seen.add(k)
             dd.append(t)
-    _trees[key] = (d2, dd[: (150 if tier == "quick" else 4000)], {"states": r["distinct"], "transitions": r["states"]})
+    ch = C.run_tlc("ExprGen", "MC_ExprGen_chain3.cfg", wd, workers=2, timeout=600, coverage=False)
+    chain3 = C.replay_lines(ch)
+    if ch["error"] or ch["violation"] or len(chain3) < 3000:
+        raise C.ToolError(f"ExprGen chain3: {ch['error'] or ch['violation']} ({len(chain3)} trees)")
+    N_CHAIN3[key] = len(chain3)
+    _trees[key] = (d2, dd[: (150 if tier == "quick" else 4000)] + chain3, {"states": r["distinct"] + ch["distinct"], "transitions": r["states"] + ch["states"]})
     return _trees[key]
